@@ -1,15 +1,16 @@
 """C04 - see properties.jsonl; DESIGN.md section 5."""
 from ._generic import run_property
 
-EXPLANATION = 'Bounded stand-in: min/max/null_count decoded from the raw footer and through ParquetFile.statistics / sorted_partitioned_columns compared with values recomputed from the data under the Parquet ordering.'
+EXPLANATION = 'Mixed. P: statistics.null_count written by write_column equals the number of missing cells of the whole column (sum over pages, loop invariant global_num_nulls == N) for data-page v1 and v2, from the real source; min/max values and the reader side are NOT under contract. B (labelled bounded): min/max/null_count decoded from the raw footer and through ParquetFile.statistics / sorted_partitioned_columns compared with values recomputed from the data under the Parquet ordering.'
 
 
 def p_parts():
-    return []
+    from ._bookkeeping import p_bookkeeping
+    return [p_bookkeeping]
 
 
 def run(ctx):
-    return run_property(ctx, 'exploration', EXPLANATION, p_parts=p_parts(), b_modules=['c04_stats'],
+    return run_property(ctx, 'other', EXPLANATION, p_parts=p_parts(), b_modules=['c04_stats'],
                         assumptions=["pandas / numpy / cramjam behaviour inside every opaque value",
                                      "the oracle (plain pandas / the spec library under /verif/spec) is a faithful reading of the property"],
                         trusted=["bounded layer: enumerated inputs only; nothing outside the stated bound is covered"])
